@@ -30,6 +30,9 @@ Section Walk.
   Variable expand : node -> outcome * list edge.   (* the node's own lookups, then its call edges in order *)
   Variable onerr : outcome.                        (* what the caller makes of a callee that returned an error *)
   Variable check : bool.                           (* is the visited list consulted at all *)
+  Variable persist : bool.                         (* true: a key stays recorded for the rest of the run (mermaid pairs);
+                                                      false: it is recorded only while its callee is being expanded
+                                                      (IntsBuilder.walking: `defer delete(b.walking, key)`) *)
 
   Definition memk (k:key) (l:list key) : bool := existsb (keqb k) l.
 
@@ -40,7 +43,7 @@ Section Walk.
     | (Ok, Some (k, n')) :: r =>
         if check && memk k vis then go rec r vis
         else match rec n' (k :: vis) with
-             | (Ok, v2) => go rec r v2
+             | (Ok, v2) => go rec r (if persist then v2 else vis)
              | (Err, v2) => (onerr, v2)
              | (o, v2) => (o, v2)
              end
